@@ -47,37 +47,37 @@ type Op struct {
 
 type Trigger struct {
 	Point  string `json:"point"`
-	Occ    int    `json:"occ"`              // fire at this occurrence (1-based)
-	A      int    `json:"a"`                // required value of hook arg a (-1 = any)
-	Action string `json:"action"`           // cancel | shutdown | ttyfail
-	Bar    int    `json:"bar"`              // -1 any
+	Occ    int    `json:"occ"`    // fire at this occurrence (1-based)
+	A      int    `json:"a"`      // required value of hook arg a (-1 = any)
+	Action string `json:"action"` // cancel | shutdown | ttyfail
+	Bar    int    `json:"bar"`    // -1 any
 }
 
 type Scenario struct {
-	Fam       string     `json:"fam"`
-	Seed      uint64     `json:"seed"`
-	Mode      string     `json:"mode"` // auto | manual | none | pty
-	RefreshUS int        `json:"refresh_us"`
-	Q         int        `json:"q"` // -1 = library default
-	Width     int        `json:"width"`
-	PtyRows   int        `json:"pty_rows,omitempty"`
-	PtyCols   int        `json:"pty_cols,omitempty"`
-	Pop       bool       `json:"pop,omitempty"`
-	Delay     bool       `json:"delay,omitempty"`
-	Notifier  bool       `json:"notifier,omitempty"`
-	UWG       bool       `json:"uwg,omitempty"`
-	Bars      []BarSpec  `json:"bars"`
-	Clients   [][]Op     `json:"clients"`
-	End       string     `json:"end"` // natural | cancel | shutdown
-	Trig      *Trigger   `json:"trig,omitempty"`
-	OutFailAt int        `json:"out_fail_at,omitempty"` // k-th output Write fails
-	Policy    string     `json:"policy"`                // none | light | heavy | targeted
-	Target    string     `json:"target,omitempty"`
-	Late      bool       `json:"late,omitempty"`
-	FinalRefr int        `json:"final_refreshes,omitempty"` // manual mode: refreshes issued after the finisher
-	WaitEarly bool       `json:"wait_early,omitempty"`      // Wait is invoked while clients still run
-	Anchor    bool       `json:"anchor,omitempty"`          // bar 0 is kept running until clients are done (keeps the wait group above zero)
-	Chain     int        `json:"chain,omitempty"`           // C16: number of containers run back to back
+	Fam       string    `json:"fam"`
+	Seed      uint64    `json:"seed"`
+	Mode      string    `json:"mode"` // auto | manual | none | pty
+	RefreshUS int       `json:"refresh_us"`
+	Q         int       `json:"q"` // -1 = library default
+	Width     int       `json:"width"`
+	PtyRows   int       `json:"pty_rows,omitempty"`
+	PtyCols   int       `json:"pty_cols,omitempty"`
+	Pop       bool      `json:"pop,omitempty"`
+	Delay     bool      `json:"delay,omitempty"`
+	Notifier  bool      `json:"notifier,omitempty"`
+	UWG       bool      `json:"uwg,omitempty"`
+	Bars      []BarSpec `json:"bars"`
+	Clients   [][]Op    `json:"clients"`
+	End       string    `json:"end"` // natural | cancel | shutdown
+	Trig      *Trigger  `json:"trig,omitempty"`
+	OutFailAt int       `json:"out_fail_at,omitempty"` // k-th output Write fails
+	Policy    string    `json:"policy"`                // none | light | heavy | targeted
+	Target    string    `json:"target,omitempty"`
+	Late      bool      `json:"late,omitempty"`
+	FinalRefr int       `json:"final_refreshes,omitempty"` // manual mode: refreshes issued after the finisher
+	WaitEarly bool      `json:"wait_early,omitempty"`      // Wait is invoked while clients still run
+	Anchor    bool      `json:"anchor,omitempty"`          // bar 0 is kept running until clients are done (keeps the wait group above zero)
+	Chain     int       `json:"chain,omitempty"`           // C16: number of containers run back to back
 }
 
 func (s *Scenario) nBars() int { return len(s.Bars) }
